@@ -121,6 +121,8 @@ type h2World struct {
 	relayV6  net.IP
 	genFail  bool
 	evenPort int
+	oddProbes int      // how many of the next even-port probes get an odd port
+	probes   []*simPC // every socket handed out to an even-port probe
 	dialFail bool
 	cidIndex map[uint32]int
 	nextCid  int
@@ -156,10 +158,16 @@ func (g *h2Gen) AllocatePacketConn(c AllocateListenerConfig) (net.PacketConn, ne
 		if g.w.evenPort == 0 {
 			return nil, nil, fmt.Errorf("simgen: no port")
 		}
-		pc, err := g.w.n.listenUDP(g.relayIP(c.Network), g.w.evenPort, true)
+		port := g.w.evenPort
+		if g.w.oddProbes > 0 { // the first "any port" sockets land on odd ports: the search must close them and go on
+			port = g.w.evenPort + 1 + 2*g.w.oddProbes
+			g.w.oddProbes--
+		}
+		pc, err := g.w.n.listenUDP(g.relayIP(c.Network), port, true)
 		if err != nil {
 			return nil, nil, err
 		}
+		g.w.probes = append(g.w.probes, pc)
 		return pc, pc.addr, nil
 	}
 	if g.w.genFail {
